@@ -315,3 +315,67 @@ def copy_hand(tid, spec, rng, pol, max_after=60):
             if ev['out'].startswith('Other:'):
                 return rec
     return rec
+
+
+def raw_record(tid, st, spec, werr=False):
+    """a hand record that is not validated step by step: the final state with its whole operation log"""
+    rec = {'tid': tid, 'spec': spec, 'deck0': [], 'steps': [], 'raw': True}
+    rec['cfg'] = pk.project_cfg(st, werr=werr, extra={'deckcards': sorted(pk.card_int(c) for c in st.deck), 'variant': spec.get('variant')})
+    rec['create'] = {'out': 'ok', 'post': play.observe(st, 0), 'micro': []}
+    return rec
+
+
+def phh_pair(tid, spec, rng, pol, cut_p=0.3, user_fields=True):
+    """A: a hand played on the engine; B: the replay of the hand history written from it (dump -> load -> iterate)"""
+    from pokerkit import HandHistory
+    import warnings
+    holder = {}
+    spec = dict(spec, boards0=1, rake={'num': 0, 'den': 1, 'cap': -1, 'nfnd': False})
+    max_steps = rng.randint(3, 40) if rng.random() < cut_p else 400
+    recA = walk.play_hand(tid, spec, rng, pol, max_steps=max_steps, keep_state=holder)
+    if recA['create']['out'] != 'ok' or 'state' not in holder:
+        return None
+    stA = holder['state']
+    game = games.Last.game
+    flags = []
+    kw = {}
+    if user_fields:
+        kw = {'_seed': spec['seed'], '_tags': ['verif', 'x y'], '_ratio': 1.5, '_flag': True, '_note': "it's a 'quoted' #note",
+              '_nested': {'a': 1, 'b c': [1, 2]}, 'author': 'verif', 'hand': tid}
+    stB = None
+    try:
+        with warnings.catch_warnings():
+            warnings.simplefilter('ignore')
+            hh = HandHistory.from_game_state(game, stA, **kw)
+            text = hh.dumps()
+            hh2 = HandHistory.loads(text)
+            text2 = hh2.dumps()
+            flags.append(['saving the loaded history again gives the identical text', text == text2])
+            flags.append(['user-defined fields survive the round trip', hh2.user_defined_fields == hh.user_defined_fields])
+            flags.append(['the loaded history has the same fields', all(getattr(hh, f) == getattr(hh2, f) for f in (
+                'variant', 'antes', 'blinds_or_straddles', 'bring_in', 'small_bet', 'big_bet', 'min_bet', 'starting_stacks', 'actions',
+                'ante_trimming_status', 'author', 'hand'))])
+            for stB in hh2:
+                pass
+        flags.append(['the loaded history replays without error', True])
+        if not stA.status and hh.actions:
+            # a history that cannot be applied is an error, not a silently shorter hand: one more action after the end
+            import dataclasses as _dc
+            bad = HandHistory.loads(text)
+            bad.actions = list(bad.actions) + [rng.choice(['p1 cc', 'p2 f', 'd db 2c3c4c', 'p1 cbr 5'])]
+            try:
+                with warnings.catch_warnings():
+                    warnings.simplefilter('ignore')
+                    for _ in bad:
+                        pass
+                raised = False
+            except ValueError:
+                raised = True
+            flags.append(['a history with an action after the end of the hand is reported as an error', raised])
+    except Exception as e:  # noqa: BLE001
+        flags.append([f'the loaded history replays without error ({type(e).__name__}: {str(e)[:80]})', False])
+    recA['steps'] = [ev for ev in recA['steps']]
+    if stB is None:
+        return {'tid': tid, 'kind': 'phh', 'A': recA, 'B': recA, 'sync': [], 'flags': flags}
+    recB = raw_record(tid, stB, dict(spec, autos=[a.value for a in stB.automations]))
+    return {'tid': tid, 'kind': 'phh', 'A': recA, 'B': recB, 'sync': [], 'flags': flags, 'text': text}
